@@ -1,7 +1,7 @@
 /-
   C15 — Argon2i / Argon2id = RFC 9106: theorems over XC.Model.C15.
 -/
-import XC.Model.C15
+import XC.Proofs.C15
 import XC.Props.C05
 namespace XC.C15
 open XC.C05
@@ -504,5 +504,237 @@ theorem indexAlpha_eq_rfc (rand : UInt64) (lanes seg threads n slice lane index 
     (by rw [UInt32.toNat_toUInt64]; exact UInt32.toNat_lt _)
     (by omega) hmem).1
   rw [hp, UInt32.toNat_toUInt64, UInt32.toNat_toUInt64, a1, a2]
+
+/-! ## the block function and the final block against RFC 9106 §3.5–3.6 / §3.2 steps 7–8
+    (`processBlock_eq_G`, `processBlockXOR_eq_G`, `permute_eq_rfc` are proved in XC.Proofs.C15) -/
+
+open XC.C15.Rfc in
+theorem foldl_xorBlock_getD (g : Nat → Block) (l : List Nat) : ∀ (acc : Block) (j : Nat), j < 128 →
+    (l.foldl (fun acc i => xorBlock acc (g i)) acc).getD j 0 =
+      l.foldl (fun a i => a ^^^ (g i).getD j 0) (acc.getD j 0) := by
+  induction l with
+  | nil => intros; rfl
+  | cons x r ih =>
+    intro acc j hj
+    simp only [List.foldl_cons]
+    rw [ih _ j hj, xorBlock_eq]
+    unfold xorB
+    rw [ofFn_getD _ j hj]
+
+open XC.C15.Rfc in
+theorem foldl_xorB_getD (g : Nat → Block) (l : List Nat) : ∀ (acc : Block) (j : Nat), j < 128 →
+    (l.foldl (fun acc i => xorB acc (g i)) acc).getD j 0 =
+      l.foldl (fun a i => a ^^^ (g i).getD j 0) (acc.getD j 0) := by
+  induction l with
+  | nil => intros; rfl
+  | cons x r ih =>
+    intro acc j hj
+    simp only [List.foldl_cons]
+    rw [ih _ j hj]
+    unfold xorB
+    rw [ofFn_getD _ j hj]
+
+theorem foldl_xor_init (f : Nat → UInt64) (l : List Nat) : ∀ a : UInt64,
+    l.foldl (fun a i => a ^^^ f i) a = a ^^^ l.foldl (fun a i => a ^^^ f i) 0 := by
+  induction l with
+  | nil => intro a; simp
+  | cons x r ih =>
+    intro a
+    simp only [List.foldl_cons]
+    rw [ih (a ^^^ f x), ih (0 ^^^ f x), UInt64.zero_xor, UInt64.xor_assoc]
+
+theorem flatMap_congr' {α β : Type} (l : List α) (f g : α → List β) (h : ∀ a ∈ l, f a = g a) :
+    l.flatMap f = l.flatMap g := by
+  induction l with
+  | nil => rfl
+  | cons x r ih => simp [List.flatMap_cons, h x (by simp), ih (fun a ha => h a (by simp [ha]))]
+
+theorem u64toLE_eq_natToLE (n : Nat) (w : UInt64) : u64toLE n w = natToLE n w.toNat := by
+  induction n generalizing w with
+  | zero => rfl
+  | succ n ih =>
+    simp only [u64toLE, natToLE, ih]
+    congr 1
+    · apply UInt8.toNat_inj.mp
+      simp [UInt64.toNat_toUInt8, UInt8.toNat_ofNat']
+    · congr 1
+      rw [UInt64.toNat_shiftRight]
+      simp [Nat.shiftRight_eq_div_pow]
+
+open XC.C15.Rfc in
+/-- **extractKey_eq_rfc**: XOR-ing the last blocks of lanes 0 … p−2 into the last block of lane p−1 and hashing
+    its 1024 bytes with blake2bHash is RFC 9106 §3.2 steps 7–8: the tag H′^T(B[0][q−1] ⊕ … ⊕ B[p−1][q−1]) -/
+theorem extractKey_eq_rfc (c : Ctx) (b : Mem) (T : Nat) (hT : 1 ≤ T)
+    (hp : 1 ≤ c.threads.toNat)
+    (hm : c.memory.toNat = c.threads.toNat * c.lanes.toNat) :
+    extractKey c b T = some (tag b c.threads.toNat c.lanes.toNat T) := by
+  unfold extractKey tag
+  simp only []
+  rw [hprime_eq_rfc _ _ hT]
+  congr 2
+  generalize hpv : c.threads.toNat = p at *
+  generalize hqv : c.lanes.toNat = q at *
+  obtain ⟨p', rfl⟩ : ∃ p', p = p' + 1 := ⟨p - 1, by omega⟩
+  have hlast : c.memory.toNat - 1 = p' * q + q - 1 := by rw [hm, Nat.succ_mul]
+  -- word by word
+  have hw : ∀ j, j < 128 →
+      ((List.range (p' + 1 - 1)).foldl (fun acc lane => xorBlock acc (b.getD (lane * q + q - 1) zeroBlock))
+        (b.getD (c.memory.toNat - 1) zeroBlock)).getD j 0 = (finalBlock b (p' + 1) q).getD j 0 := by
+    intro j hj
+    unfold finalBlock
+    rw [foldl_xorBlock_getD (fun lane => b.getD (lane * q + q - 1) zeroBlock) _ _ j hj,
+      foldl_xorB_getD (fun i => b.getD (i * q + q - 1) zeroBlock) _ _ j hj]
+    have hz : (Array.replicate 128 (0 : UInt64)).getD j 0 = 0 := by simp [Array.getD, hj]
+    rw [hz, Nat.add_sub_cancel, List.range_succ, List.foldl_append, hlast]
+    simp only [List.foldl_cons, List.foldl_nil]
+    rw [foldl_xor_init _ _ ((b.getD (p' * q + q - 1) zeroBlock).getD j 0), UInt64.xor_comm]
+  unfold bytesOfBlock blockBytes
+  apply flatMap_congr'
+  intro i hi
+  have hi' : i < 128 := by simpa using hi
+  rw [u64toLE_eq_natToLE, hw i hi']
+
+/-! ## the address generator and one iteration of the segment loop against RFC 9106 §3.2 / §3.4 -/
+
+section
+open XC.C15.Rfc
+
+theorem G_comm (x y : Block) : G x y = G y x := by
+  unfold G; rw [xorB_comm]
+
+theorem zeroBlock_eq : zeroBlock = zeroB := rfl
+
+/-- `in[6]++; processBlock(&addresses, &in, &zero); processBlock(&addresses, &addresses, &zero)` is
+    G(ZERO, G(ZERO, Z)) for the input block with its counter word incremented -/
+theorem nextAddresses_eq_rfc (inp : Block) :
+    (nextAddresses inp).2 = G zeroB (G zeroB (inp.setIfInBounds 6 (inp.getD 6 0 + 1))) ∧
+    (nextAddresses inp).1 = inp.setIfInBounds 6 (inp.getD 6 0 + 1) := by
+  unfold nextAddresses
+  simp only []
+  rw [processBlock_eq_G, processBlock_eq_G, zeroBlock_eq, G_comm _ zeroB, G_comm _ zeroB]
+  exact ⟨rfl, rfl⟩
+
+theorem getD_setB (a : Block) (i j : Nat) (v : UInt64) (hi : i < a.size) :
+    (a.setIfInBounds i v).getD j 0 = if j = i then v else a.getD j 0 := getD_set a i j v hi
+
+/-- the `in` block processSegment builds is Z of §3.4.1.2 with counter i = 0 … -/
+theorem addrInput_init (n lane slice memory time : UInt32) (mode : Nat) :
+    (((((zeroBlock.setIfInBounds 0 n.toUInt64).setIfInBounds 1 lane.toUInt64).setIfInBounds 2 slice.toUInt64).setIfInBounds 3
+        memory.toUInt64).setIfInBounds 4 time.toUInt64).setIfInBounds 5 (UInt64.ofNat mode) =
+      addrInput n.toNat lane.toNat slice.toNat memory.toNat time.toNat mode 0 := by
+  have hz : zeroBlock.size = 128 := by simp [zeroBlock]
+  have hzg : ∀ j, zeroBlock.getD j 0 = 0 := by
+    intro j; simp [zeroBlock, Array.getD]; split <;> simp
+  have cv : ∀ x : UInt32, x.toUInt64 = UInt64.ofNat x.toNat := by
+    intro x; apply UInt64.toNat_inj.mp; simp [UInt32.toNat_toUInt64, UInt64.toNat_ofNat']
+    have := x.toNat_lt; omega
+  apply block_ext _ _ (by simp [zeroBlock]) (by simp [addrInput])
+  intro j hj
+  rw [getD_setB _ _ _ _ (by simp [zeroBlock]), getD_setB _ _ _ _ (by simp [zeroBlock]),
+    getD_setB _ _ _ _ (by simp [zeroBlock]), getD_setB _ _ _ _ (by simp [zeroBlock]),
+    getD_setB _ _ _ _ (by simp [zeroBlock]), getD_setB _ _ _ _ (by simp [zeroBlock]), hzg]
+  unfold addrInput
+  rw [ofFn_getD _ j hj]
+  simp only [cv]
+  have : j = 0 ∨ j = 1 ∨ j = 2 ∨ j = 3 ∨ j = 4 ∨ j = 5 ∨ j = 6 ∨ 7 ≤ j := by omega
+  rcases this with rfl | rfl | rfl | rfl | rfl | rfl | rfl | h7
+  all_goals (try simp)
+  · obtain ⟨k, rfl⟩ : ∃ k, j = k + 7 := ⟨j - 7, by omega⟩
+    simp
+
+/-- … and `in[6]++` turns counter i into i + 1 -/
+theorem addrInput_succ (r l sl m' t y i : Nat) :
+    (addrInput r l sl m' t y i).setIfInBounds 6 ((addrInput r l sl m' t y i).getD 6 0 + 1) =
+      addrInput r l sl m' t y (i + 1) := by
+  apply block_ext _ _ (by simp [addrInput]) (by simp [addrInput])
+  intro j hj
+  rw [getD_setB _ _ _ _ (by simp [addrInput])]
+  unfold addrInput
+  rw [ofFn_getD _ j hj, ofFn_getD _ 6 (by omega)]
+  by_cases h6 : j = 6
+  · subst h6; simp [UInt64.ofNat_add]
+  · rw [if_neg h6, ofFn_getD _ j hj]
+    have : j = 0 ∨ j = 1 ∨ j = 2 ∨ j = 3 ∨ j = 4 ∨ j = 5 ∨ 7 ≤ j := by omega
+    rcases this with rfl | rfl | rfl | rfl | rfl | rfl | h7
+    all_goals (try simp)
+    · obtain ⟨k, rfl⟩ : ∃ k, j = k + 7 := ⟨j - 7, by omega⟩
+      simp
+
+/-- hence the address block generated for counter i is `addrBlock … i` of the RFC -/
+theorem nextAddresses_addrBlock (r l sl m' t y i : Nat) :
+    nextAddresses (addrInput r l sl m' t y i) = (addrInput r l sl m' t y (i + 1), addrBlock r l sl m' t y (i + 1)) := by
+  obtain ⟨h1, h2⟩ := nextAddresses_eq_rfc (addrInput r l sl m' t y i)
+  rw [addrInput_succ] at h1 h2
+  exact Prod.ext h2 h1
+
+/-- **one iteration of the segment loop** (index < segments): the block at `offset` becomes
+    `old ⊕ G(B[prev], B[ref])` — RFC 9106 §3.2 steps 5–6 (`newBlock`) — where `ref = indexAlpha(J1‖J2, …)`
+    (= the §3.4 mapping by `indexAlpha_eq_rfc`) and J1‖J2 is word `index mod 128` of the current address block
+    (data-independent addressing; a new block every 128 indices) or the first word of the previous block
+    (data-dependent addressing); nothing else in memory changes in this iteration -/
+theorem segmentLoop_step (c : Ctx) (n slice lane : UInt32) (fuel : Nat) (index offset : UInt32)
+    (inp addresses : Block) (b : Mem) (h : index < c.segments) :
+    segmentLoop c n slice lane (fuel + 1) index offset inp addresses b =
+      (let prev := if index == 0 && slice == 0 then offset - 1 + c.lanes else offset - 1
+       let st : Block × Block :=
+         if dataIndep c n slice then (if index % 128 == 0 then nextAddresses inp else (inp, addresses))
+         else (inp, addresses)
+       let random := if dataIndep c n slice then st.2.getD (index % 128).toNat 0
+                     else (b.getD prev.toNat zeroBlock).getD 0 0
+       let ref := indexAlpha random c.lanes c.segments c.threads n slice lane index
+       segmentLoop c n slice lane fuel (index + 1) (offset + 1) st.1 st.2
+         (b.setIfInBounds offset.toNat
+           (newBlock (b.getD offset.toNat zeroBlock) (b.getD prev.toNat zeroBlock) (b.getD ref.toNat zeroBlock)))) := by
+  simp only [segmentLoop, if_pos h]
+  by_cases hd : dataIndep c n slice = true
+  · simp only [hd, if_true]
+    by_cases hi : (index % 128 == 0) = true
+    · simp only [hi, if_true, processBlockXOR_eq_G, newBlock]
+    · simp only [hi, if_false, Bool.false_eq_true, processBlockXOR_eq_G, newBlock]
+  · have hd' : dataIndep c n slice = false := by simpa using hd
+    simp only [hd', Bool.false_eq_true, if_false, processBlockXOR_eq_G, newBlock]
+
+/-- the index of the previous block computed in uint32 arithmetic (with the wrap for the first block of a
+    lane) is column `prevCol q j` of the same lane -/
+theorem prev_eq_rfc (c : Ctx) (slice lane index : UInt32)
+    (hq : c.lanes.toNat = 4 * c.segments.toNat) (hs : slice.toNat < 4) (hi : index.toNat < c.segments.toNat)
+    (hseg : 1 ≤ c.segments.toNat) (hmem : lane.toNat * c.lanes.toNat + c.lanes.toNat ≤ 4294967296)
+    (offset : UInt32) (ho : offset.toNat = lane.toNat * c.lanes.toNat + slice.toNat * c.segments.toNat + index.toNat)
+    (hb : slice.toNat * c.segments.toNat ≤ 3 * c.segments.toNat) :
+    (if index == 0 && slice == 0 then offset - 1 + c.lanes else offset - 1).toNat =
+      lane.toNat * c.lanes.toNat + prevCol c.lanes.toNat (slice.toNat * c.segments.toNat + index.toNat) := by
+  have hidx := beq_true_iff_32 index 0
+  have hsl := beq_true_iff_32 slice 0
+  have z : (0 : UInt32).toNat = 0 := rfl
+  have one : (1 : UInt32).toNat = 1 := rfl
+  rw [hidx, hsl, z]
+  unfold prevCol
+  generalize hL : lane.toNat * c.lanes.toNat = L at *
+  generalize hS : slice.toNat * c.segments.toNat = S at *
+  by_cases h0 : index.toNat = 0 ∧ slice.toNat = 0
+  · obtain ⟨h1, h2⟩ := h0
+    have hS0 : S = 0 := by rw [← hS, h2]; simp
+    simp only [h1, h2, decide_true, Bool.and_true, if_true]
+    rw [UInt32.toNat_add, UInt32.toNat_sub, one, ho, hS0, h1]
+    have e : (0 + 0 + c.lanes.toNat - 1) % c.lanes.toNat = c.lanes.toNat - 1 := by
+      rw [Nat.zero_add, Nat.zero_add]; exact Nat.mod_eq_of_lt (by omega)
+    rw [e]
+    omega
+  · have hne : ¬ (decide (index.toNat = 0) && decide (slice.toNat = 0)) = true := by
+      simp only [Bool.and_eq_true, decide_eq_true_eq]; exact h0
+    rw [if_neg hne, UInt32.toNat_sub, one, ho]
+    have hpos : 1 ≤ S + index.toNat := by
+      rcases Nat.eq_zero_or_pos index.toNat with hi0 | hi0
+      · have hs0 : slice.toNat ≠ 0 := fun e => h0 ⟨hi0, e⟩
+        have : 1 * c.segments.toNat ≤ slice.toNat * c.segments.toNat := Nat.mul_le_mul_right _ (by omega)
+        omega
+      · omega
+    have e : (S + index.toNat + c.lanes.toNat - 1) % c.lanes.toNat = S + index.toNat - 1 := by
+      have : S + index.toNat + c.lanes.toNat - 1 = (S + index.toNat - 1) + c.lanes.toNat := by omega
+      rw [this, Nat.add_mod_right, Nat.mod_eq_of_lt (by omega)]
+    rw [e]
+    omega
+
+end
 
 end XC.C15
